@@ -1,4 +1,5 @@
 """C07 — totality: any text and any valid option set gives a result or SQLParseError."""
+import os
 import gen, streams, grammar
 from common import *
 import sqlparse
@@ -31,7 +32,10 @@ def try_format(ctx, text, opts, what):
     except SQLParseError:
         ctx.count('outcome:SQLParseError')
     except Exception as e:
-        ctx.fail('%s: %s escaped from format()' % (what, type(e).__name__), text, observed=repr(e)[:200], required='str or SQLParseError', options=repr(opts))
+        import traceback
+        fr = traceback.extract_tb(e.__traceback__)[-3:]
+        site = ['%s:%s' % (os.path.basename(t.filename), t.name) for t in fr] + [type(e).__name__]
+        ctx.fail('%s: %s escaped from format()' % (what, type(e).__name__), text, observed=repr(e)[:200], required='str or SQLParseError', options=repr(opts), site=site)
 
 
 def random_valid_opts(rng):
@@ -134,6 +138,8 @@ def keyof(f):
 
 def classify(f, kf):
     for k in kf:
+        if k.get('site') and f.get('site') == k['site']:
+            return k['id']
         for pat in k.get('match_what', []):
             if pat in f['what']:
                 return k['id']
